@@ -29,9 +29,9 @@ ASSUMPTIONS = [
 NS = {'T': T, 'S': S, 'A': A, 'Path': Path, 'len': len, 'slice': slice}
 
 # step terms; argument sources are python expressions evaluated in NS
-ITEM_ARGS = ["'k'", "0", "-1", "None", "1.5", "True", "1", "1.0", "'A'", "(1, 2)", "(1,)", "()", "\"it's\"", "'d.t'", "'q\"'",
+ITEM_ARGS = ["'k'", "'it\\'s \"q\"'", "0", "-1", "None", "1.5", "True", "1", "1.0", "'A'", "(1, 2)", "(1,)", "()", "\"it's\"", "'d.t'", "'q\"'",
              "slice(1, 2)", "slice(None, None, 2)", "(slice(1, 2), 3)", "len", "T.a"]
-CALL_ARGS = [("", ""), ("1, 'x'", ""), ("", "k=None"), ("T.a", ""), ("len", "")]
+CALL_ARGS = [("", ""), ("1, 'x'", ""), ("", "k=None"), ("T.a", ""), ("len", ""), ("", "k='it\\'s \"q\"'"), ("'it\\'s \"q\"'", "j=('a\\'b\"c',)")]
 STEPS = [['.', 'a'], ['.', 'T']] + [['[', a] for a in ITEM_ARGS] + [['(', a, k] for a, k in CALL_ARGS] + [['x'], ['X']]
 P_SEGS = ["'a'", "'d.t'", "0", "None", "(1, 2)", "'S'"]
 
@@ -66,6 +66,10 @@ def build_expr(case):
     parts = []
     chunk = None
     first = True
+    if case['wrap'] == 'pathroot':
+        # the bare root given as a part of its own, every chunk after it spelled from T: Path(S, T.a, 'b')
+        parts.append(root)
+        first = False
     for st in case['steps']:
         if st[0] == 'P':
             if chunk is not None:
@@ -81,7 +85,7 @@ def build_expr(case):
         first = False
     if chunk is not None:
         parts.append(chunk)
-    if not case['steps'] and root is not T:
+    if not case['steps'] and root is not T and case['wrap'] != 'pathroot':
         parts.append(root)
     return Path(*parts)
 
@@ -160,6 +164,23 @@ def mk_targets():
     return [Rec(), {'a': {'k': [1, 2, 3]}, 'k': [[4, 5], [6]], 0: 'zero'}, [10, 11, [12]], 5]
 
 
+def expected_struct(case):
+    """the steps as written in the case, independent of how the library stored them"""
+    out = ['T', case['root']]
+    for st in case['steps']:
+        k = st[0]
+        if k in ('P', '['):
+            out += [struct(k), struct(ev(st[1]))]
+        elif k == '.':
+            out += [struct('.'), struct(st[1])]
+        elif k == '(':
+            a, kw = eval('(lambda *a, **kw: (a, kw))(%s)' % ', '.join(x for x in (st[1], st[2]) if x), dict(NS))
+            out += [struct('('), struct((a, kw))]
+        else:
+            out += [struct(k), struct(None)]
+    return tuple(out)
+
+
 def run_roundtrip(case):
     try:
         x = build_expr(case)
@@ -167,6 +188,8 @@ def run_roundtrip(case):
         return R(None, 'unbuildable:' + type(e).__name__, nontrivial=False)
     rx = repr(x)
     where = {'expr': rx, 'case': case}
+    if struct(x) != expected_struct(case):
+        return R({'expected': 'root and steps as written: %r' % (expected_struct(case),), 'observed': repr(struct(x)), **where}, 'construction')
     # --- eval(repr(x))
     try:
         y = eval(rx, dict(NS))
@@ -220,6 +243,8 @@ def gen_roundtrip(tier):
                 if root != 'T' and n > 3:
                     continue
                 cases.append({'root': root, 'wrap': 'path', 'steps': [list(s) for s in seq]})
+                if n <= 3:
+                    cases.append({'root': root, 'wrap': 'pathroot', 'steps': [list(s) for s in seq]})
     return cases
 
 
